@@ -73,9 +73,12 @@ Require Import Calc.ExprSem Calc.ExprVM Calc.ExprCorrect Calc.ExprSession Calc.S
 Theorem C04_builtin_call_changes_no_global : forall Bf n W nm e W' res,
   ssem Bf n W (NCall (NName nm) [e]) = Some (W', res) -> w_glob W' = w_glob W.
 Proof.
-  intros Bf n W nm e W' res H. apply ssem_call in H. destruct H as (b & mo & fid & _ & _ & _ & H).
-  destruct (den (w_glob W) e) as [x|err]; destruct H as [-> _]; [|reflexivity].
-  destruct b; reflexivity.
+  intros Bf n W nm e W' res H. destruct (bop_of_name nm) as [b|] eqn:Eb.
+  - apply (ssem_call Bf _ _ _ b _ _ _ Eb) in H. destruct H as (mo & fid & _ & _ & H).
+    destruct (den (w_glob W) e) as [x|err]; destruct H as [-> _]; [|reflexivity].
+    destruct b; reflexivity.
+  - apply (ssem_ucall Bf _ _ _ _ _ _ Eb) in H. destruct H as (body & mo & fid & _ & _ & _ & _ & H).
+    destruct (den (w_glob W) e) as [x|err]; [destruct H as (-> & _)|destruct H as [-> _]]; reflexivity.
 Qed.
 Print Assumptions C04_builtin_call_changes_no_global.
 
@@ -104,6 +107,26 @@ Theorem C04_compiled_call_restores_the_caller : forall Bf nm b e d s s' w,
   SpecS Bf (NCall (NName nm) [e]) d 0 s s' w.
 Proof.
   intros Bf nm b e d s s' w Hb Hp Hwf H.
-  apply (comp_stmt Bf (NCall (NName nm) [e])); [cbn [wstmt is_bcall]; rewrite Hb; exact Hp|reflexivity|exact Hwf|exact H].
+  apply (comp_stmt Bf (NCall (NName nm) [e])); [cbn [wstmt is_bcall]; exact Hp|reflexivity|exact Hwf|exact H].
 Qed.
 Print Assumptions C04_compiled_call_restores_the_caller.
+
+(* ---- user functions ---- *)
+(* a call of a user function, as the compiled code runs it, changes no global, writes nothing, reads no
+   input (C04_builtin_call_changes_no_global covers the globals for every callee) *)
+Theorem C04_user_call_changes_nothing : forall Bf n W nm e W' res,
+  bop_of_name nm = None ->
+  ssem Bf n W (NCall (NName nm) [e]) = Some (W', res) ->
+  w_glob W' = w_glob W /\ w_out W' = w_out W /\ w_in W' = w_in W.
+Proof.
+  intros Bf n W nm e W' res Hb H. apply (ssem_ucall Bf _ _ _ _ _ _ Hb) in H.
+  destruct H as (body & mo & fid & _ & _ & _ & _ & H).
+  destruct (den (w_glob W) e) as [x|err]; [destruct H as (-> & _)|destruct H as [-> _]]; repeat split.
+Qed.
+Print Assumptions C04_user_call_changes_nothing.
+
+(* inside the body, the parameter resolves to the function's own variable: reading local 0 gives the
+   argument of THIS activation (lval), whatever the caller's variables or the globals of that name hold *)
+Theorem C04_parameter_is_the_argument : forall x G n, LExprSem.lden [x] G (NLocal 0 n) = Ok x.
+Proof. intros x G n. reflexivity. Qed.
+Print Assumptions C04_parameter_is_the_argument.
